@@ -11,6 +11,21 @@ CHECKS = {
          "Every (configuration, target, level) probe logs through the real Logger and the multiset of appenders that received the record is compared with a routing model re-implemented from the property statement; each configuration is built under three declaration orders. Held means: no disagreement on the probes executed (counts in the evidence). Routing has no schedule or crash dimension, so wide randomised exploration with an exact oracle is the right level.",
          "Trusted: the harness reference model (routing.rs), the log crate's Record builder. Names come from a small component alphabet; <=24 loggers.",
          "DESIGN.md §4 C01"),
+ "C02": ("exploration",
+         "runtime monitor: Log::enabled / max level / log! macro deliveries vs routing reference model; facade observed in child processes over reconfiguration histories",
+         "In-process: Log::enabled and Logger::max_log_level compared with the reference model on generated configurations. Child processes (one per history, because the log facade is process-global): each init entry point followed by 5-30 Handle::set_config swaps that move the maximum up and down; after every step log::max_level(), log_enabled! and the deliveries of the real log! macros are compared with the model. Held = no disagreement on the observed histories.",
+         "Trusted: routing reference model, the log crate's macros. STATIC_MAX_LEVEL is the default. init_raw_config/init_file are observed through file appenders (line counts).",
+         "DESIGN.md §4 C02"),
+ "C03": ("exploration",
+         "runtime monitor: recording Filter/Append implementations + error-handler capture, expected call trace per appender from the statement",
+         "Every Filter::filter, Append::append and error-handler call is recorded and compared with the trace the statement prescribes, per appender: exhaustive over all 121 Accept/Neutral/Reject chains up to length 4 (alone and between failing / healthy neighbours, all levels), all threshold x level pairs in three placements, plus random mixes with repeated attachments through a child logger.",
+         "Trusted: harness filters/appenders. Chains longer than 4 only in the random part (<=4 too); more than 4 appenders per logger not exercised.",
+         "DESIGN.md §4 C03"),
+ "C13": ("exploration",
+         "runtime monitor: reference well-formedness + error-set oracle over exhaustive logger names and generated builder inputs; built configs installed and probed",
+         "build/build_lossy are run on every logger name over {a,b,:} up to length 6 and on generated builder inputs with duplicates, ill-formed names and dangling references; acceptance, the named errors (required subset, no innocent item), the lossy result (accessor view) and the routing of every returned Config (installed in a private Logger, probed under a panic trap) are compared with a reference model written from the statement.",
+         "Trusted: reference model in c13.rs. Names with colon runs of even length >= 4 and dangling references inside rejected loggers are don't-care.",
+         "DESIGN.md §4 C13"),
 }
 
 NOT_YET = {}
